@@ -308,6 +308,16 @@ def r4_sar_siblings(ctx):
         ctx.check(ok, f.qual + "#weight", "weight of step i = 2**(adc_bits-(i+1))" if ok else f"weight of step i is {ft['weight']}", where=f, node=f.node)
         ok = ft["halvings"] == 1 and ft["halving_last"]
         ctx.check(ok, f.qual + "#halve", "reference halved once, at the end of each step" if ok else "reference is not halved exactly once at the end of each step", where=f, node=f.node)
+        # the code accumulator is float64 whatever the signal's own float type (a float32 / float16
+        # accumulator rounds the bit weights: codes above full scale, wrap at 32 bit)
+        rets_ = [r for r in returns_of(f) if r.value is not None]
+        acc = None
+        if len(rets_) == 1 and isinstance(rets_[0].value, ast.Call):
+            c0 = rets_[0].value
+            acc = dotted(arg_or_kw(c0, 0, "codes")) if call_name(c0).split(".")[-1] == "convert_to_unsigned" else (dotted(c0.func.value) if isinstance(c0.func, ast.Attribute) else None)
+        adefs = [norm(v) for s_, v in local_defs(f, acc or "") if v is not None and not isinstance(s_, ast.AugAssign)]
+        ok_acc = len(adefs) == 1 and adefs[0] in ("np.zeros((num_rows, num_cols))", "np.zeros((num_rows, num_cols), dtype=float)", "np.zeros((num_rows, num_cols), dtype=np.float64)", "np.zeros(shape=(num_rows, num_cols))", "np.zeros(shape=(num_rows, num_cols), dtype=float)", "np.zeros(shape=(num_rows, num_cols), dtype=np.float64)")
+        ctx.check(ok_acc, f.qual + "#accumulator", "codes accumulate in a float64 array of the detector's shape" if ok_acc else f"the code accumulator is {adefs}: its precision follows the signal frame (float32 / float16 frames round the bit weights) or its shape is not the detector's", where=f, node=f.node)
         ok = ft["cast"] is not None and (ft["cast"].endswith(".astype(get_dtype(adc_bits))") or (ft["cast"].startswith("convert_to_unsigned(") and ft["cast"].endswith("bit_resolution=adc_bits, dtype=get_dtype(adc_bits))")))
         ctx.check(ok, f.qual + "#cast", "output cast to get_dtype(adc_bits)" if ok else f"output is {ft['cast']}", where=f, node=f.node)
         ms = ft["masks"]
